@@ -133,6 +133,7 @@ type flagOpts struct {
 	Valued  bool
 	Filters bool
 	Mapping bool
+	NoHide  bool // mapping rules of level >= 1 only (nothing is hidden: the Delta row must stay zero)
 }
 
 func randomFlags(rng *rand.Rand, j *kj.Journal, o flagOpts) *kj.Flags {
@@ -158,7 +159,7 @@ func randomFlags(rng *rand.Rand, j *kj.Journal, o flagOpts) *kj.Flags {
 		}
 	}
 	if o.Filters && rng.Intn(2) == 0 {
-		f.AcctRx = []string{"^Assets", "Bank|Rent", "^(Income|Expenses)", "Food", "Checking$"}[rng.Intn(5)]
+		f.AcctRx = []string{"^Assets", "Bank|Rent", "^(Income|Expenses)", "Food", "Checking$", "Equity", "^E", "Equity:Equity$"}[rng.Intn(8)]
 	}
 	if o.Filters && rng.Intn(3) == 0 {
 		f.CommRx = []string{"CHF", "USD|AAPL", "^A"}[rng.Intn(3)]
@@ -167,6 +168,9 @@ func randomFlags(rng *rand.Rand, j *kj.Journal, o flagOpts) *kj.Flags {
 		n := 1 + rng.Intn(2)
 		for k := 0; k < n; k++ {
 			r := kj.Rule{Level: rng.Intn(3), Suffix: rng.Intn(4), Regex: []string{"", "^Assets", "^Expenses:Food", "Bank", "^Income", "^Expenses", "Trips|Main"}[rng.Intn(7)]}
+			if r.Level == 0 && o.NoHide {
+				r.Level = 1 + rng.Intn(2)
+			}
 			if r.Level == 0 {
 				r.Suffix = 0
 			}
